@@ -1,7 +1,6 @@
 """Shared machinery for C10 / C11 (constant folder, expression evaluator).
 
-Pipeline: translators (fold_rules.py, expr_arms.py, and C08's eval_arms.py for the ordering arms)
--> build Coq (Expr area) -> audit theorems -> build harness vp-expr -> generate expressions and
+Pipeline: translators (fold_rules.py, expr_arms.py) -> build Coq (Expr area) -> audit theorems -> build harness vp-expr -> generate expressions and
 events -> run the implementation (evaluator API on the AST, and real programs through
 parse / parse_unfolded + Engine) -> run the model (vm_compute) -> oracles + comparison.
 
@@ -745,7 +744,7 @@ def run_resilient(binpath, requests, timeout=900):
     return answers
 
 
-def run_translators(run, need_cmp=True):
+def run_translators(run, need_cmp=False):
     ok = True
     names = ["fold_rules.py", "expr_arms.py"] + (["eval_arms.py"] if need_cmp else [])
     for t in names:
@@ -775,7 +774,8 @@ def build_all(run, targets, audit_file, allow=()):
 
 def model_eval(run, tag, cases):
     """cases: list of (expr, events).  Returns list of parsed model answers
-    {"fold": "F:.."|"FP", "res": [(unfolded, folded)..]} or None when the model could not be run."""
+    {"known": bool (identity_fires), "fold": "F:.."|"FP", "res": [(unfolded, folded)..]} or None when
+    the model could not be run."""
     if not cases:
         return []
     try:
@@ -787,7 +787,7 @@ def model_eval(run, tag, cases):
     res = []
     for o in outs:
         parts = o.split("|")
-        res.append({"fold": parts[0], "res": [tuple(p.split(";")) for p in parts[1:]]})
+        res.append({"known": parts[0] == "K1", "fold": parts[1], "res": [tuple(p.split(";")) for p in parts[2:]]})
     return res
 
 
@@ -890,3 +890,284 @@ def shrink_expr(e, events, still_fails, budget=60):
                 ev = cand
         cur_ev = [ev]
     return cur_e, cur_ev
+
+
+# ------------------------------------------------------------ batch evaluation
+def short(x, n=400):
+    s = x if isinstance(x, str) else json.dumps(x, separators=(",", ":"))
+    return s if len(s) <= n else s[:n] + "..."
+
+
+def judge_ast(e, events, ans, model):
+    """One AST-level case.  Returns dict with lists of failure strings:
+       c10  folded and unfolded expression differ on the implementation / the folder panics
+       c11  the implementation panics or aborts while evaluating the (unfolded) expression
+       corr the model (Expr/Run.v run_case) and the implementation differ"""
+    out = {"c10": [], "c11": [], "corr": []}
+    if "abort" in ans:
+        out["c11"].append("evaluating %s aborted the process (%s)" % (short(to_text(e), 200), ans["abort"][-120:]))
+        if model is not None and not any("P" in (u, f) for u, f in model["res"]) and model["fold"] != "FP":
+            out["corr"].append("implementation aborted, model: %s %s" % (model["fold"], model["res"]))
+        return out
+    fi = impl_fold_str(ans)
+    if fi == "FP":
+        out["c10"].append("the folder panics on %s: %s" % (short(to_text(e), 200), ans["folded"]["panic"]))
+    for k, (ev, (ru, rf)) in enumerate(zip(events, ans["res"])):
+        su, sf = r_result(ru), r_result(rf)
+        if su == "P":
+            out["c11"].append("evaluating %s panics: %s" % (short(to_text(e), 200), ru.get("panic", "")))
+        if rf is not None and su != sf:
+            out["c10"].append("event %d: unfolded gives %s, folded (%s) gives %s" % (k, su, short(fi, 160), sf))
+    if model is not None:
+        if fi != model["fold"]:
+            out["corr"].append("folded expression differs: impl %s, model %s" % (short(fi, 300), short(model["fold"], 300)))
+        for k, (ev, (ru, rf), (mu, mf)) in enumerate(zip(events, ans["res"], model["res"])):
+            if opaque_reason(e, ev):
+                continue
+            su, sf = r_result(ru), r_result(rf)
+            if str(MARKER) in mu or str(MARKER) in mf:
+                su, sf, mu, mf = su[:1], sf[:1], mu[:1], mf[:1]
+            if (su, sf) != (mu, mf):
+                out["corr"].append("event %d: impl (%s ; %s), model (%s ; %s)" % (k, short(su, 200), short(sf, 200), short(mu, 200), short(mf, 200)))
+    return out
+
+
+def to_text(e):
+    try:
+        return to_vpl(e)
+    except NoText:
+        return r_expr(e)
+
+
+def run_ast_batch(run, binpath, tag, cases):
+    """cases: list of (expr, events).  Yields (expr, events, answer, model, verdict-dict)."""
+    reqs = [{"op": "eval", "expr": e, "events": evs} for e, evs in cases]
+    answers = run_resilient(binpath, reqs)
+    models = model_eval(run, tag, cases)
+    for (e, evs), a, m in zip(cases, answers, models):
+        yield e, evs, a, m, judge_ast(e, evs, a, m)
+
+
+def ast_still(binpath, which):
+    """predicate for shrinking: does (expr, events) still fail oracle `which` ('c10' | 'c11') on the implementation?"""
+    def f(e, evs):
+        a = run_resilient(binpath, [{"op": "eval", "expr": e, "events": evs}])[0]
+        return bool(judge_ast(e, evs, a, None)[which])
+    return f
+
+
+# ------------------------------------------------------------------ programs
+def program_text(where, emits):
+    """`stream S = A [.where(W)] .emit(f1: E1, ..)`; NoText if some expression cannot be spelled"""
+    s = "stream S = A\n"
+    if where is not None:
+        s += "    .where(%s)\n" % to_vpl(where)
+    s += "    .emit(%s)\n" % ", ".join("%s: %s" % (n, to_vpl(x)) for n, x in emits)
+    return s
+
+
+def expected_outputs(has_where, n_emit, names, events, per_expr):
+    """What the engine must emit per input event, from the outcomes of the stream's expressions
+    (per_expr[j][k] = outcome string of expression j on event k; order: where?, emit fields)."""
+    outs = []
+    for k in range(len(events)):
+        j = 0
+        if has_where:
+            if per_expr[0][k] != "V:b1":
+                outs.append([])
+                continue
+            j = 1
+        fields = []
+        for f in range(n_emit):
+            o = per_expr[j + f][k]
+            if o.startswith("V:"):
+                fields.append("%s=%s" % (names[f], o[2:]))
+        outs.append([",".join(fields)])
+    return outs
+
+
+def impl_outputs(run_ans):
+    if "out" not in run_ans:
+        return None
+    return [[",".join("%s=%s" % (k, r_value(v)) for k, v in o["fields"]) for o in per] for per in run_ans["out"]]
+
+
+def is_simple_emit(e):
+    return "id" in e or "s" in e
+
+
+def judge_program(case, ans, models):
+    """case = (where|None, [(name, expr)..], events, text).  models: list (per parsed expression, in
+    the order where?, emit fields) of model answers, or None."""
+    where, emits, events, text = case
+    out = {"c10": [], "c11": [], "corr": [], "hook": []}
+    if "abort" in ans:
+        out["c11"].append("running the program aborted the process (%s): %s" % (ans["abort"][-120:], short(text, 200)))
+        return out
+    if not ans.get("hook_consistent", False):
+        out["hook"].append("parse(text) differs from fold_program(parse_unfolded(text)) for %s" % short(text, 200))
+    un, fo = ans["unfolded"], ans["folded"]
+    if isinstance(un, dict):
+        return out            # the text does not parse: not a case
+    if isinstance(fo, dict):
+        out["c10"].append("the unfolded program parses but parse() (with folding) fails: %s" % fo.get("error"))
+        return out
+    ru, rf = ans["run_unfolded"], ans["run_folded"]
+    for nm, r in (("unfolded", ru), ("folded", rf)):
+        if "panic" in r:
+            out["c11"].append("the engine panics on the %s program: %s" % (nm, r["panic"]))
+    ou, of = impl_outputs(ru), impl_outputs(rf)
+    if ("panic" in ru) != ("panic" in rf) or ("error" in ru) != ("error" in rf) or ou != of:
+        out["c10"].append("engine outputs differ: unfolded %s, folded %s" % (short(ou if ou is not None else ru, 300), short(of if of is not None else rf, 300)))
+    if models is None or any(m is None for m in models) or "error" in ru:
+        return out
+    # model: folded ASTs
+    for j, (m, fe) in enumerate(zip(models, fo)):
+        if m["fold"] != "F:" + r_expr(fe):
+            out["corr"].append("expression %d: parse() folds to %s, model to %s" % (j, short(r_expr(fe), 200), short(m["fold"], 200)))
+    has_where = where is not None
+    names = [n for n, _ in emits]
+    for side, asts, r, o in (("unfolded", un, ru, ou), ("folded", fo, rf, of)):
+        idx = 0 if side == "unfolded" else 1
+        emit_asts = asts[1:] if has_where else asts
+        if all(is_simple_emit(x) for x in emit_asts):
+            continue          # RuntimeOp::Emit (field copy), not the expression evaluator
+        per_expr = [[res[idx] for res in m["res"]] for m in models]
+        if any(opaque_reason(x, ev) for x in un for ev in events) or any(str(MARKER) in s for pe in per_expr for s in pe):
+            continue
+        # which events does the model say panic on?  (the engine stops at the first)
+        panics = False
+        for k in range(len(events)):
+            col = [pe[k] for pe in per_expr]
+            if has_where and col[0] == "P":
+                panics = True
+            if (not has_where or col[0] == "V:b1") and "P" in col[(1 if has_where else 0):]:
+                panics = True
+            if panics:
+                break
+        if panics:
+            if "panic" not in r:
+                out["corr"].append("%s program: model predicts a panic, engine gives %s" % (side, short(o, 200)))
+            continue
+        if "panic" in r:
+            out["corr"].append("%s program: engine panics (%s), model predicts none" % (side, r["panic"]))
+            continue
+        want = expected_outputs(has_where, len(emits), names, events, per_expr)
+        if o != want:
+            out["corr"].append("%s program %s: engine %s, model %s" % (side, short(text, 160), short(o, 300), short(want, 300)))
+    return out
+
+
+def run_program_batch(run, binpath, tag, cases):
+    """cases: list of (where|None, [(name, expr)..], events).  Yields (case+text, answer, verdict)."""
+    texts = []
+    for where, emits, events in cases:
+        try:
+            texts.append((where, emits, events, program_text(where, emits)))
+        except NoText:
+            continue
+    reqs = [{"op": "program", "vpl": t, "events": evs} for _, _, evs, t in texts]
+    answers = run_resilient(binpath, reqs)
+    # model cases: one per parsed expression
+    mcases, owner = [], []
+    for k, (c, a) in enumerate(zip(texts, answers)):
+        if "abort" in a or isinstance(a.get("unfolded"), dict):
+            continue
+        for x in a["unfolded"]:
+            if has_big_range(x):
+                continue
+            mcases.append((x, c[2]))
+            owner.append(k)
+    mres = model_eval(run, tag, mcases)
+    per = {}
+    for k, m in zip(owner, mres):
+        per.setdefault(k, []).append(m)
+    for k, (c, a) in enumerate(zip(texts, answers)):
+        ms = per.get(k)
+        if ms is not None and not isinstance(a.get("unfolded"), dict) and len(ms) != len(a["unfolded"]):
+            ms = None
+        yield c, a, judge_program(c, a, ms)
+
+
+def program_still(binpath, which):
+    def f(where, emits, events):
+        try:
+            t = program_text(where, emits)
+        except NoText:
+            return False
+        a = run_resilient(binpath, [{"op": "program", "vpl": t, "events": events}])[0]
+        return bool(judge_program((where, emits, events, t), a, None)[which])
+    return f
+
+
+# ------------------------------------------------- C10 known-finding class (fallback)
+KNOWN_IDENTITY = "type-blind-identity-rewrite"
+
+
+def _int_lit(e):
+    return int(e["i"]) if "i" in e else None
+
+
+def py_identity_fires(e):
+    """Python rendering of Model.identity_fires, used to classify a failing input only when the Coq
+    model could not be evaluated: does an identity rewrite of fold_binary's second pass fire while
+    folding e bottom-up?  Returns (fires, folded expression)."""
+    (k, x), = e.items()
+    if k == "bin":
+        fl, l = py_identity_fires(x[1])
+        fr, r = py_identity_fires(x[2])
+        fired = fl or fr
+        op = x[0]
+        a, b = _int_lit(l), _int_lit(r)
+        if a is not None and b is not None and op in ("Add", "Sub", "Mul", "Div", "Mod", "Pow"):
+            v = None
+            if op == "Add":
+                v = a + b
+            elif op == "Sub":
+                v = a - b
+            elif op == "Mul":
+                v = a * b
+            elif op in ("Div", "Mod") and b != 0 and not (a == I64_MIN and b == -1):
+                q = abs(a) // abs(b) * (1 if (a < 0) == (b < 0) else -1)
+                v = q if op == "Div" else a - q * b
+            elif op == "Pow":
+                bb = (b + (1 << 31)) % (1 << 32) - (1 << 31)
+                if bb >= 0 and abs(a) ** bb < (1 << 53):
+                    v = a ** bb
+                elif bb < 0:
+                    v = 1 if a == 1 else (1 if bb % 2 == 0 else -1) if a == -1 else I64_MAX if a == 0 else 0
+                else:
+                    return fired, {"i": str(I64_MAX)}     # huge: not 0 / 1, which is all that matters here
+            if v is not None and I64_MIN <= v <= I64_MAX:
+                return fired, {"i": str(v)}
+            if op != "Pow":
+                # overflow / zero divisor: not folded, the identity pass still looks at the node
+                pass
+        if "f" in l and "f" in r and op in ("Add", "Sub", "Mul", "Div"):
+            return fired, {"bin": ["_floatfold", l, r]}      # a float literal: never the integer 0 / 1
+        if op == "Mul" and (b == 0 or a == 0):
+            return True, {"i": "0"}
+        if op == "Mul" and b == 1:
+            return True, l
+        if op == "Mul" and a == 1:
+            return True, r
+        if op == "Add" and b == 0:
+            return True, l
+        if op == "Add" and a == 0:
+            return True, r
+        if op == "Sub" and b == 0:
+            return True, l
+        if op == "Div" and b == 1:
+            return True, l
+        return fired, {"bin": [op, l, r]}
+    if k == "un":
+        f, y = py_identity_fires(x[1])
+        if x[0] == "Neg" and "i" in y and int(y["i"]) != I64_MIN:
+            return f, {"i": str(-int(y["i"]))}
+        return f, {"un": [x[0], y]}
+    fired = False
+    for s in list(subexprs(e))[1:]:
+        (kk, _), = s.items()
+        if kk == "bin":
+            fired = fired or py_identity_fires(s)[0]
+    return fired, e
